@@ -6,6 +6,7 @@ toolchain go1.23.5
 
 require (
 	go.uber.org/thriftrw v0.0.0
+	go.uber.org/zap v1.9.1
 	pgregory.net/rapid v1.3.0
 )
 
@@ -14,7 +15,6 @@ require (
 	github.com/fatih/structtag v1.2.0 // indirect
 	go.uber.org/atomic v1.3.2 // indirect
 	go.uber.org/multierr v1.1.0 // indirect
-	go.uber.org/zap v1.9.1 // indirect
 	golang.org/x/tools v0.21.1-0.20240531212143-b6235391adb3 // indirect
 )
 
